@@ -1,4 +1,5 @@
 import IncanModel.Sem.CoreTyping
+import IncanModel.Props.C03
 /-
 C02 — every program that type-checks also builds (core fragment: checker acceptance implies what lowering and
 rustc require).
@@ -352,3 +353,48 @@ theorem nested_retype_accepted :
   simp [chkB, chkS, chkBind, chkElse, rustB, rustS, rustBind, rustElse, tyE, lookupLocal, lookupVar, declare]
 
 end Incan.Core
+
+/-! ### Calls: what the checker lets through is a call rustc can type -/
+namespace Incan.Checker
+
+/-- MAIN (calls): if the checker reports nothing on a positional call of a callable without default parameters
+(no mismatched, surplus or missing argument), the call has exactly one argument per parameter and each argument
+has a type its parameter accepts — what rustc demands of the emitted call (E0061 / E0308 cannot occur). -/
+theorem accepted_call_is_wellformed (ok : String → String → Bool) (args : List CArg) (ps : List (String × String))
+    (h : ∀ a ∈ args, a.name = none)
+    (hv : validateArgs ok args ps 0 = []) (hs : surplusArgs args ps = [])
+    (hm : missingParams args [] ps (positionalCount args) = []) :
+    args.length = ps.length ∧
+    ∀ j, (hj : j < ps.length) → (ha : j < args.length) → ok (args[j]).ty (ps[j]).2 = true := by
+  have h1 : args.length ≤ ps.length := by
+    apply Nat.le_of_not_lt
+    intro hlt
+    have := surplus_argument_reported args ps h hlt
+    rw [hs] at this
+    exact absurd this (by simp)
+  have h2 : ps.length ≤ args.length := by
+    apply Nat.le_of_not_lt
+    intro hlt
+    have := missing_argument_reported args h [] ps args.length hlt (Nat.le_refl _) (by simp)
+    rw [hm] at this
+    exact absurd this (by simp)
+  refine ⟨Nat.le_antisymm h1 h2, ?_⟩
+  intro j hj ha
+  cases hok : ok (args[j]).ty (ps[j]).2 with
+  | true => rfl
+  | false =>
+    have := wrong_argument_reported ok args ps h j hj ha hok
+    rw [hv] at this
+    exact absurd this (by simp)
+
+/-- Non-vacuity: a fitting two-argument call meets all three premises. -/
+example : validateArgs (· == ·) [⟨none, "int"⟩, ⟨none, "str"⟩] [("a", "int"), ("b", "str")] 0 = [] ∧
+    surplusArgs [⟨none, "int"⟩, ⟨none, "str"⟩] [("a", "int"), ("b", "str")] = [] ∧
+    missingParams [⟨none, "int"⟩, ⟨none, "str"⟩] [] [("a", "int"), ("b", "str")] 2 = [] := by decide
+
+/-- With a default parameter the premises hold for a call rustc refuses (recorded finding
+`C02-default-parameter-omitted`): the theorem needs `defaults = []`. -/
+example : missingParams [⟨none, "int"⟩] ["b"] [("a", "int"), ("b", "int")] 1 = [] := by decide
+
+end Incan.Checker
+
